@@ -18,7 +18,10 @@ CFG = {'assumptions': ['f64 inputs cross the boundary as bit patterns (non-finit
          'overlapping, touching, empty), hole chains cutting the interior, multipolygons with identical / '
          'shifted / nested / randomly placed / malformed members, degenerate Point/Line/LineString/Multi*/Rect/'
          'Triangle and nested collections; a sixth translated far from the origin and scaled by 2^k; distinct '
-         'by input text; empty geometries are tagged triv',
+         'by input text; empty geometries are tagged triv. Corpus: witnesses of F8/F11, hand-picked corner cases, and '
+         'the 820 convertible isValid cases of the JTS TestValid*.xml files with their expected answers, which are '
+         'cross-checked against the specification (811 agree; 9 are invalid in JTS only because the interior is '
+         'disconnected, which the property does not ask for)',
  'trusted_base': ['modelled, not verified: `relate` is represented by the executable DE-9IM specification '
                   'relateSpec (property C01 ties relate to it on valid input); ring-pair / member-pair errors '
                   'whose operands are themselves malformed (outside the domain of relate) are left out of the '
@@ -42,8 +45,15 @@ MANIFEST = {'note': 'Trusted: Lean 4.33 kernel (axioms propext, Classical.choice
          'monad exactly as visit_validation is generic in the handler): visitGeom_eq - with ANY lawful handler '
          'the visitor feeds the handler the entries of one list geomErrs in order; hence validationErrors_eq, '
          'checkValidation_eq (the fail-fast visitor returns the first entry the collecting one lists), '
-         'isValid_iff_no_errors, errors_nonempty_iff_not_valid, check_error_is_first_listed; the ring-local '
-         'clauses (see the theorem list). The correspondence runs is_valid, check_validation and '
+         'isValid_iff_no_errors, errors_nonempty_iff_not_valid, check_error_is_first_listed. Ring-local: '
+         'tooFew_iff / tooFew_lineString_iff (fewer than 4 / 2 coordinates after removing consecutive repeats; '
+         'dedup_length ties Vec::dedup with f64 equality to the specification), nonFinite_iff, '
+         '*_mem_ringErrs, error soundness tooFew_sound / nonFinite_sound against the specification, '
+         'nonFinite_rejected. F8: three_segment_ring_accepted_on_pinned_tree (the pinned loop never reported a '
+         '3-segment ring), flat_ring_has_self_intersection and flat_ring_polygon_invalid (after the fix every '
+         'ring of three distinct collinear points is rejected, for every oracle), chained_pair_flagged_iff, '
+         'pairBad_unchained, selfIntersection_iff_pair. NOT proved: hasSelfIntersection = false <-> ringSimple '
+         '(exercised by the correspondence on every generated ring instead). The correspondence runs is_valid, check_validation and '
          'validation_errors of the real code (concrete type and through the Geometry enum) against the model, '
          'and judges the implementation\'s answers against an independent specification (ringSimple + the '
          'DE-9IM specification): no false accept, no false reject, errors non-empty iff not valid, every '
